@@ -330,9 +330,11 @@ func GenReq(t *rapid.T, idx int, o ReqOpts) (*wire.Req, *ReqInfo) {
 			info.Trailers = true
 		}
 	}
-	if o.Expect && n > 0 && !info.H10 && rapid.IntRange(0, 5).Draw(t, "expect") == 0 {
+	if o.Expect && n > 0 && rapid.IntRange(0, 5).Draw(t, "expect") == 0 {
 		framingLines = append(framingLines, wire.KV{K: "Expect", V: "100-continue"})
-		r.Expect100 = true
+		// an HTTP/1.0 client does not know interim responses: the expectation is ignored there (RFC 7231 5.1.1),
+		// the request is read and answered like any other and no "100 Continue" precedes its response
+		r.Expect100 = !info.H10
 		info.Expect = true
 	}
 
